@@ -12,12 +12,14 @@ EXPLANATION = ('Static rules on scheduler.rs: H1 OnceTask/FutureTask call their 
                'H5 value=Some is written only by Remote::poll after the inner future is Ready, so a handle reports closed only when the '
                'task can no longer act; H6 all schedule impls are instances of one macro. H4 repeating tasks tick only after a Ready period timer that is re-armed with the period each time, count seq by +1 and stop when the task declines (same rules as C08.I1/I2, C16.E3). '
                'H7 task handles registered with a MultiSubscription are let go only by unsubscribing them (same rule as C17.K6), so a cancelled pipeline cannot leave a task that still starts. '
+               'H8 a stored task handle is overwritten only when it is known to be absent or closed, or after it was taken out and unsubscribed: dropping a TaskHandle does not cancel its task, so an overwritten pending handle leaves a task that unsubscribe() can no longer reach. '
                'Does not decide virtual-time run orders.')
 ASSUMPTIONS = ['the timer future returned by new_timer completes no earlier than its duration (trusted dependency)']
 
 CONTROLS = [
     'H1|<verif_controls::RerunTask<Args> as Future>::poll',
     'H3|<verif_controls::UnlockedRemote<Fut> as Future>::poll',
+    'H8|<verif_controls::OverwritingHandles<SD> as Observer>::next',
 ]
 
 
@@ -32,6 +34,7 @@ def check(cx):
     res += h1(cx) + h3(cx)
     if not cx.control:
         res += h2(cx) + h5(cx) + h6(cx) + h4(cx) + h7(cx)
+    res += h8(cx)
     return res
 
 
@@ -95,12 +98,16 @@ def h2(cx):
                 if dd[0] == 'discr':
                     inner = strip(dd[1])
                     root, steps = access_path(inner)
-                    if steps and steps[-1] in ('delay', '0') and root[0] == 'arg' and branch is None and inner not in timer_polls:
+                    if steps and root[0] == 'arg' and branch is None and inner not in timer_polls and not any(st.startswith('as ') for st in steps):
+                        # the first branch on a captured Option (the delay, or a timer armed for it)
                         branch = 'none' if v == 0 else 'some'
                     if inner in timer_polls and v == 0:
                         ready = True
             if n['kind'] in ('call', 'enter') and n['name'].endswith('new_timer'):
                 timer = True
+            if poll_kind(n) == 'timer' and n['args']:
+                if mentions(n['args'][0], lambda x: x[0] == 'variant' and x[2] == 'Some' and access_path(x[1])[0][0] == 'arg'):
+                    timer = True      # a timer future that was captured inside the Option the branch was taken on
             if poll_kind(n) == 'task':
                 if not (branch == 'none' or (timer and ready)):
                     return ('EARLY', timer, ready)
@@ -256,3 +263,95 @@ def h4(cx):
     for f in c08.i12(cx) + c16.e3(cx):
         out.append(Finding(ID, 'H4', f.rule + ':' + f.key, f.ok, f.msg, f.loc, f.witness))
     return out
+
+
+def h8(cx):
+    """handle cells (MutRc|MutArc<Option<TaskHandle>>) are only overwritten when the old handle is absent / closed / was cancelled"""
+    from ..core import TAKE, UNSUB_NAMES, IS_CLOSED_NAMES, recv_class
+    F = cx.facts
+    res = []
+    n = 0
+    is_handle_cell = lambda t: roles.is_cell_of(F, t, lambda o: roles.is_option_of(F, o, lambda x: x['k'] == 'adt' and x['p'] == 'scheduler::TaskHandle'))
+    for im in cx.observer_impls():
+        tag = roles.impl_tag(cx, im)
+        if cx.control != ('verif_controls' in tag):
+            continue
+        cells = [f for f, t in roles.adt_fields(cx, tag) if is_handle_cell(F.ty(t))]
+        if not cells:
+            continue
+        for meth in ('next', 'error', 'complete'):
+            fn = cx.method(im, meth)
+            g = cx.graph(fn['key'])
+            for cell in cells:
+                cls = 'self.' + cell
+                stores = [x for x in g.nodes if x['kind'] == 'assign' and recv_class(x['lhs']) == cls and access_path(x['lhs'])[1][-1:] == ['@'] and
+                          strip(x['rhs'])[0] == 'agg' and strip(x['rhs'])[2].endswith('Option::Some')]
+                if not stores:
+                    continue
+                n += 1
+                unsub_taken = any(x['kind'] in ('call', 'enter') and x['name'] in UNSUB_NAMES and x['args'] and recv_class(x['args'][0]) == cls and '!take' in access_path(x['args'][0])[1] for x in g.nodes)
+
+                def cond_kind(e):
+                    """+1: e true implies the old handle is absent/closed; -1: e false implies it; 0: says nothing"""
+                    dd = strip(e)
+                    neg = 1
+                    while dd[0] == 'un' and dd[1] == 'Not':
+                        dd = strip(dd[2])
+                        neg = -neg
+                    if dd[0] == 'discr' and recv_class(dd[1]) == cls:
+                        return -neg           # discriminant 0 (None) is the safe outcome
+                    if dd[0] == 'call' and dd[2] and recv_class(dd[2][0]) == cls:
+                        tail = dd[1].rsplit('::', 1)[-1]
+                        if tail == 'map_or' and len(dd[2]) > 1 and const_bool(dd[2][1]) is True:
+                            return neg
+                        if tail == 'is_none' or dd[1] in IS_CLOSED_NAMES or tail == 'is_closed':
+                            return neg
+                        if tail == 'is_some':
+                            return -neg
+                    return 0
+
+                def step(st, x, lab):
+                    state, marks = st
+                    if state == 'BAD':
+                        return None
+                    d, v = sw_value(lab)
+                    if d is not None and v in (0, 1):
+                        dd = strip(d)
+                        par = 1
+                        while dd[0] == 'un' and dd[1] == 'Not':
+                            dd = strip(dd[2])
+                            par = -par
+                        key = ('L', dd[1]) if dd[0] == 'local' else (('C', dd[3]) if dd[0] == 'call' else None)
+                        md = dict(marks)
+                        k = md.get(key, 0) * par if key in md else cond_kind(d)
+                        if (k == 1 and v == 1) or (k == -1 and v == 0):
+                            state = 'safe'
+                    if x['kind'] == 'assign' and x['lhs'][0] == 'local':
+                        k = cond_kind(x['rhs'])
+                        if k == 0 and const_bool(x['rhs']) is not None and state == 'safe':
+                            k = 1 if const_bool(x['rhs']) else -1     # a constant answer given on a path that already knows
+                        key = ('L', x['lhs'][1])
+                        marks = tuple(sorted([m for m in marks if m[0] != key] + ([(key, k)] if k else []), key=repr))
+                    if x['kind'] in ('exit', 'call') and x.get('value') and x.get('dest') and x['dest'][0] == 'local':
+                        k = cond_kind(x['value'])
+                        key = ('L', x['dest'][1])
+                        marks = tuple(sorted([m for m in marks if m[0] != key] + ([(key, k)] if k else []), key=repr))
+                    if x['kind'] == 'exit' and x.get('value') and x['value'][0] == 'call' and x.get('body'):
+                        L = ('L', (x['ctx'] + ((x['fn'], x['bb'], x['body']),), 0))
+                        md = dict(marks)
+                        ck = ('C', x['value'][3])
+                        marks = tuple(sorted([m for m in marks if m[0] != ck] + ([(ck, md[L])] if L in md else []), key=repr))
+                    if x['kind'] == 'call' and x['name'] in TAKE and x['args'] and recv_class(x['args'][0]) == cls and unsub_taken:
+                        state = 'safe'
+                    if x in stores:
+                        return ('BAD', ()) if state != 'safe' else ('stored', marks)
+                    return (state, marks)
+                reached, pred = explore(g, ('start', ()), step)
+                bad = [k for k in reached if k[1][0] == 'BAD']
+                res.append(Finding(ID, 'H8', cx.label(fn), not bad,
+                                   'a new task handle is stored over `%s` on a path that has not shown the old handle to be absent or closed and has not cancelled it: the old task can no longer be cancelled and still runs after unsubscribe()' % cell
+                                   if bad else 'the handle in `%s` is replaced only when absent / closed / cancelled' % cell,
+                                   fn['span'], witness(g, pred, bad[0], interesting_default) if bad else None))
+    if not cx.control and n < 2:
+        res.append(Finding(ID, 'H8', 'floor', False, 'expected the debounce and throttle handle cells, found %d' % n))
+    return res
